@@ -453,7 +453,8 @@ func SubscriptBuiltin(vm *Thread, collection, key value.Value) (result, err valu
 	case value.ArrayTuple:
 		return c.Subscript(key)
 	case HashRecord:
-		return c.GetValUndefined(vm, key)
+		// an absent key is nil at the language level, never the internal `undefined`
+		return c.GetValNil(vm, key)
 	default:
 		return value.Undefined, value.Undefined
 	}
